@@ -311,6 +311,13 @@ func init() {
 				return b
 			}
 			lens := []int{253, 254, 255, 256, 300, 508, 509, 762, 1000}
+			// the longest frames the reader's buffer takes: encoded length (with its closing delimiter) equal to the buffer size and one below
+			// (with the usual leading delimiter the stream holds exactly a buffer's worth before the closing one)
+			for n := 1000; n < maxLen; n++ {
+				if e := len(refCobsEncode(bytes.Repeat([]byte{9}, n))); e == maxLen || e == maxLen-1 {
+					lens = append(lens, n)
+				}
+			}
 			type lc struct {
 				frames [][]byte
 				pre    int // frames that must come first
